@@ -255,6 +255,9 @@ def ceiling_clamp(cx, iid):
     # the emitters' private copy of the credit is the connection's credit, deficit included
     from props.shared import emitter_wiring
     emitter_wiring(cx, "C13.k")
+    # the burst allowance is rate x RTT estimate: the estimate is the 0.9 / 0.1 filter of the samples
+    from props.C14 import rtt_filter_shape
+    rtt_filter_shape(cx, "C13.l")
 
 
 SELFTEST = [
